@@ -31,7 +31,7 @@ type dpath struct {
 	Results []ssa.Value       // all results, resolved along the path (phis, spilled named results)
 }
 
-var idRe = regexp.MustCompile(`@(?:~[^:@\s]*:)?b\d+i\d+`)
+var idRe = regexp.MustCompile(`@(?:[~^][^:@\s]*:)?b\d+i\d+`)
 
 func canon(k string) string { return idRe.ReplaceAllString(k, "") }
 
@@ -198,7 +198,12 @@ func enumPaths(fl *Flow, maxPaths int) ([]dpath, error) {
 					for _, a := range alts {
 						as := clone(ns)
 						addFacts(&as, a.facts)
-						as.callKeys[x] = rk(&as, a.result)
+						if a.result != "" {
+							as.callKeys[x] = rk(&as, a.result)
+						}
+						for f, v := range a.stores {
+							as.stores[f] = abbrevFn(canon(rk(&as, v)))
+						}
 						run(b, i+1, as)
 					}
 					return
@@ -290,6 +295,7 @@ func enumPaths(fl *Flow, maxPaths int) ([]dpath, error) {
 type helperValue struct {
 	facts  []Fact
 	result string
+	stores map[string]string // field -> value key (caller's terms), for helpers that update receiver fields
 }
 
 // helperValues: call is a call of a pure, loop-free, single-result (non-boolean) function of the
@@ -298,30 +304,42 @@ type helperValue struct {
 // then reads as the two cases tail+1 (not at the end) and 0 (at the end).
 func helperValues(fl *Flow, call *ssa.Call, resolve func(ssa.Value) ssa.Value) ([]helperValue, bool) {
 	callee := call.Call.StaticCallee()
-	if callee == nil || callee == fl.Fn || callee.Blocks == nil || callee.Synthetic != "" || funcPkgPath(callee) != funcPkgPath(fl.Fn) ||
-		callee.Signature.Results().Len() != 1 || types.Identical(callee.Signature.Results().At(0).Type(), types.Typ[types.Bool]) || helperDepth > 3 {
+	if callee == nil || callee == fl.Fn || callee.Blocks == nil || callee.Synthetic != "" || funcPkgPath(callee) != funcPkgPath(fl.Fn) || helperDepth > 3 {
 		return nil, false
 	}
-	if len(callee.Blocks) < 2 {
-		return nil, false // straight-line accessors stay opaque atoms
+	nres := callee.Signature.Results().Len()
+	if nres > 1 || (nres == 1 && types.Identical(callee.Signature.Results().At(0).Type(), types.Typ[types.Bool])) {
+		return nil, false
 	}
-	pure := true
+	// either a value helper (no effects) with a branch, or a void helper whose only effects are stores to fields
+	simple, fieldStores := true, 0
 	eachInstr(callee, func(in ssa.Instruction) {
 		switch x := in.(type) {
 		case *ssa.Store:
 			if rootAlloc(x.Addr) == nil {
-				pure = false
+				if _, isFA := x.Addr.(*ssa.FieldAddr); isFA {
+					fieldStores++
+				} else {
+					simple = false
+				}
 			}
 		case *ssa.MapUpdate, *ssa.Send, *ssa.Go, *ssa.Defer:
-			pure = false
+			simple = false
 		case *ssa.Call:
-			// only calls of builtins (len, cap) and of further pure helpers
-			if _, isB := x.Call.Value.(*ssa.Builtin); !isB {
-				pure = false
+			// only calls of builtins (len, cap), getters and loggers
+			if _, isB := x.Call.Value.(*ssa.Builtin); isB {
+				return
 			}
+			if cal := x.Call.StaticCallee(); cal != nil && getterLike(cal) {
+				return
+			}
+			if x.Call.IsInvoke() && strings.Contains(x.Call.Value.Type().String(), "logging.Logger") {
+				return
+			}
+			simple = false
 		}
 	})
-	if !pure {
+	if !simple || (nres == 1 && (fieldStores > 0 || len(callee.Blocks) < 2)) || (nres == 0 && fieldStores == 0) {
 		return nil, false
 	}
 	cfl := NewFlow(fl.P, callee)
@@ -354,10 +372,16 @@ func helperValues(fl *Flow, call *ssa.Call, resolve func(ssa.Value) ssa.Value) (
 	}
 	var out []helperValue
 	for _, dp := range paths {
-		if len(dp.Results) != 1 {
+		if len(dp.Results) != nres {
 			return nil, false
 		}
-		hv := helperValue{result: subst(cfl.K.Key(dp.Results[0]))}
+		hv := helperValue{stores: map[string]string{}}
+		if nres == 1 {
+			hv.result = subst(cfl.K.Key(dp.Results[0]))
+		}
+		for f, v := range dp.Stores {
+			hv.stores[f] = subst(v)
+		}
 		for _, f := range dp.Facts {
 			g := Fact{f.Op, subst(f.L), ""}
 			if f.R != "" {
